@@ -59,7 +59,8 @@ RULE = ('per decoder: all byte strings of <= 2 octets (exhaustive), every single
         'link-state TLV type x sub-length 0..16 x filler patterns, every octet position of ~30 well-formed UPDATE '
         'bodies (one per address family / route type, built with the reference encoder) set to each of 60 boundary '
         'values (all 256 in the thorough tier) through Update.parse, every registered link-state / prefix-SID TLV nested '
-        'inside itself as deep as 4000 octets allow (x fixed-prefix lengths x innermost values), Hypothesis random / TLV-soup inputs up to 4096 '
+        'inside itself as deep as 4000 octets allow (x fixed-prefix lengths x innermost values), regular patterns of 1024 / 4096 '
+        'octets through every decoder, Hypothesis random / TLV-soup inputs up to 4096 '
         'octets. Non-trivial = input of >= 3 octets that is not one of the harvested valid encodings, or one of the '
         'exhaustive short strings; distinct by (decoder, bytes).')
 ASSUMPTIONS = [
@@ -259,7 +260,7 @@ def field_mutations(body, values, max_pos=400):
                 yield i, body[:i] + bytes([nb]) + body[i + 1:]
 
 
-FILLERS = [lambda n: b'\x00' * n, lambda n: b'\xff' * n, lambda n: bytes(range(1, n + 1)),
+FILLERS = [lambda n: b'\x00' * n, lambda n: b'\xff' * n, lambda n: bytes((i % 255) + 1 for i in range(n)),
            lambda n: (b'\x00\x03' * n)[:n], lambda n: (b'\x00\x00\x00\x04' * n)[:n], lambda n: (b'\x01\x00' * n)[:n],
            lambda n: (b'\x00\x05\x00\x03' * n)[:n]]
 
@@ -297,6 +298,8 @@ def shards(tier):
         out.append({'name': 'field-values-%d' % i, 'kind': 'fields', 'part': i, 'parts': 16})
     for i in range(8):
         out.append({'name': 'tlv-towers-%d' % i, 'kind': 'towers', 'part': i, 'parts': 8})
+    for i in range(16):
+        out.append({'name': 'long-patterns-%d' % i, 'kind': 'long', 'group': i, 'ngroups': 16})
     for i in range(4 if tier == 'quick' else 16):
         out.append({'name': 'field-pairs-%d' % i, 'kind': 'fields2', 'examples': 1500 if tier == 'quick' else 60000,
                     'hypothesis': True})
@@ -378,6 +381,21 @@ def run_shard(spec, seed, col, tier):
                 if sample is None and rng:
                     sample = {'decoder': UPDATE_ENTRY[0], 'data': data.hex(), 'base': cname, 'position': pos}
         col.bulk(n, nt, label='field-values', sample=sample)
+    elif kind == 'long':
+        # long regular inputs (the shapes that make a decoder rescan its input): every filler pattern at 1024 and 4096 octets,
+        # bare and behind a few short prefixes, through every decoder
+        names = decoder_groups(spec['ngroups'])[spec['group']]
+        n = 0
+        for name in names:
+            for ln in (1024, 4096):
+                for fill in FILLERS + [lambda m: (b'\x18\x00\x00\x10' * m)[:m], lambda m: (b'\x00\x00\x10' * m)[:m],
+                                       lambda m: (b'\x01\x00\x04\x00\x00\x00\x00' * m)[:m]]:
+                    for pre in (b'', b'\x00', b'\x00\x01', b'\xff\xff'):
+                        data = (pre + fill(ln))[:ln]
+                        for sig, detail in call(name, data, col):
+                            col.fail(sig, {'decoder': name, 'data': data.hex()}, detail)
+                        n += 1
+        col.bulk(n, n, label='long-patterns', sample={'decoder': names[0], 'data': (FILLERS[3](64)).hex() + '...'})
     elif kind == 'towers':
         # a TLV nested inside itself as deep as 4000 octets allow (work must stay linear in the input): every registered
         # link-state / prefix-SID TLV type x the number of fixed octets in front of its sub-TLVs x innermost value
